@@ -98,6 +98,11 @@ CHECKS = {
             "TLC walks every day of a +-150,000-day (quick) / +-3,000,100-day (thorough: the whole supported range) window forwards and backwards from 2000-01-01 with the leap-year rules as transitions and checks that the closed-form Julian-day/date/weekday functions agree with the walk in every state; those closed forms predict date(jdn), julian_day(date), weekday for the range ends, every century boundary and random days of +-3,000,000, and the day part of Unix times over +-10^11 s (seconds of the day incl. fractions split by the driver), and the interpreter must agree exactly. Fractions: every construction (int pairs to 2^70, floats by their exact ratio), + - * / and cmp is an event TLC accepts only if it is exact by cross-multiplication in limb arithmetic, in lowest terms with a positive denominator. to_int(text(x, b), b) for all b in 2..36, format b/o/x, to_str, chr/code_point over scalar values incl. surrogate edges (errors), and random JSON documents (serialise -> independent parser -> same document; deserialise(serialise(d)) == d) are replayed inverse laws.",
             "The JSON and radix/code-point clauses are differential inverse-law checks (Python's json is the independent parser), not TLC-decided; the quick calendar walk covers +-150,000 days (the thorough one the whole range); Duration arithmetic and Date/Datetime formatting are not covered.",
             "DESIGN.md 6 C20"),
+    "C13": ("model_checking",
+            "TLA+ value-shape acceptor (XrShape.AllFinite over IEEE-754 classes, recursively through containers) validating every value exported by generated literal / library-surface / composition programs",
+            "Every float inside every exported value is recorded with its IEEE-754 class (zero, subnormal, normal, inf, nan) and TLC accepts the record only if no class is inf or nan anywhere in the value (sequences, tuples/structs, unions, optionals, mappings); a panic or hang is an event without an action. Inputs: literal spellings (overflowing exponents, 300-400-digit mantissas, underscores, default values, JSON text), all ~220 root-scope signatures that mention float/Complex/Duration/Datetime/Fraction/distributions with each parameter swept over 34 float and 20 integer edge values (0, -0, subnormals, +-1, domain edges, exp/gamma/square overflow thresholds, 1e308-scale, integers up to 10^400) and pairs of parameters, every distribution constructor x edge parameters x every method x edge arguments, and random operator/function compositions to depth 4.",
+            "Bounded sampling of the double range by edge classes, not exhaustive; lazy sequences are forced for 16 elements; float values that exist only inside closures or never-exported intermediates are not observed.",
+            "DESIGN.md 6 C13"),
 }
 
 NOT_YET = {}
